@@ -2,8 +2,8 @@ import SaModel.Props.C07
 import SaModel.Lemmas.C06Stable
 /-
 C06 — a schema traced from samples accepts those same samples.
-Model: SaModel/Trace/{Tracer,FromSamples,Leaf}.lean; the builder model is written separately, so the last step of the
-closure is stated against an abstract acceptance interface.
+Model: SaModel/Trace/{Tracer,FromSamples,Leaf}.lean.  This file: the tracer-side laws.  The link to the builder model
+(C01/C02) — the closure itself — is in SaModel/Props/C06Closure.lean.
 
 Acceptance at a leaf position: `AccLeaf o r a` — the state `r` has absorbed the type `a` (`act o r a = ok r`: tracing
 `a` again changes nothing, i.e. `a` is one of the kinds the traced type was widened for).  Proved for sample lists of any
@@ -20,8 +20,7 @@ further successful absorption), `fromSamples_acc` (after `from_samples` every sa
 the final tracer).  The only hypothesis is the reachable-state invariant `WF` of the start tracer (`WF_new`: a fresh
 tracer has it; `absorb_acc_needs_wf`: the law is false for an ill-formed tracer).  Lemmas: SaModel/Lemmas/C06*.lean.
 `acc_on_zoo` evaluates the same statement on a zoo of nested collections.
-`C06_closure_partial` is the final step with the builder as a hypothesis.  `C06_tuple_arity[_pinned]` are the repaired /
-pinned witnesses of finding #25.
+`C06_tuple_arity[_pinned]` are the repaired / pinned witnesses of finding #25.
 -/
 namespace SaModel.Props.C06
 open SaModel SaModel.Trace SaModel.Lemmas.C07 SaModel.Props.C07 SaModel.Lemmas.C06
@@ -225,46 +224,12 @@ theorem absorb_acc_needs_wf :
      | .ok t' => AccB .fixed {} t' (recOf [("a", i32 1)])
      | .error _ => true) = false := by decide +kernel
 
-/-! ### the link to the builder, against an abstract acceptance interface -/
+/-! ### the link to the builder
 
-/-- what the closure needs from the builder / reader side (`to_marrow` then `from_marrow`): `accepts f x` = a column of
-field `f` takes the sample `x` and reads it back.  The builder model (C01/C05) is written separately. -/
-structure BuilderInterface where
-  accepts : Field → SVal → Prop
-
-/-- the three documented exclusions, as a predicate supplied by the caller (null for an enum-typed position, strings that
-only look like dates under `guess_dates`, unsigned values above `i64::MAX` mixed with signed ones) -/
-abbrev Excluded := Field → SVal → Prop
-
-/-- `C06_closure_partial`: IF the builder takes, for the field of a tracer, every non-excluded sample that tracer stably
-accepts (the builder-side obligation `AccS → push succeeds and decodes to x`; `AccS` implies `Acc`: `AccS_Acc`), THEN
-tracing succeeds ⇒ the traced root field accepts every sample.  The tracer side (every sample of the collection is
-stably accepted by the final tracer) is `fromSamples_acc`, no longer a hypothesis.
-Missing: the builder obligation `hbuilder` — the refinement theorem of the builder model (C01/C05); the correspondence
-suite found cells where it is false on the pinned tree (known findings C06-char-into-float,
-C06-to-string-into-dictionary: repaired; C06-unseen-first-variant-default, C06-data-less-newtype-variant-as-string:
-open). -/
-theorem C06_closure_partial (B : BuilderInterface) (excl : Excluded) (c : Code) (o : Options) (xs : List SVal)
-    (t : Tracer) (f : Field)
-    (hbuilder : ∀ x, AccS c o t x → t.to_field o = .ok f → ¬ excl f x → B.accepts f x)
-    (htrace : fromSamplesTracer c o xs = .ok t) (hf : t.to_field o = .ok f) :
-    ∀ x ∈ xs, ¬ excl f x → B.accepts f x :=
-  fun x hx hne => hbuilder x (fromSamples_acc c o xs t htrace x hx) hf hne
-
-/-- non-vacuity of `C06_closure_partial`: with the trivial builder interface the hypotheses are met by a collection that
-traces successfully to a field -/
-example : ∃ t f, fromSamplesTracer .fixed {} (itemsOf [wT2, wT3]) = .ok t ∧ t.to_field {} = .ok f := by
-  have h : (fromSamplesTracer .fixed {} (itemsOf [wT2, wT3])).isOk = true := by decide +kernel
-  cases ht : fromSamplesTracer .fixed {} (itemsOf [wT2, wT3]) with
-  | error e => rw [ht] at h; cases h
-  | ok t =>
-    have h2 : (match fromSamplesTracer .fixed {} (itemsOf [wT2, wT3]) with
-      | .ok t => (t.to_field {}).isOk | .error _ => false) = true := by decide +kernel
-    rw [ht] at h2
-    simp only at h2
-    cases hf : t.to_field {} with
-    | error e => rw [hf] at h2; cases h2
-    | ok f => exact ⟨t, f, rfl, hf⟩
+The chain is closed in `SaModel/Props/C06Closure.lean` (namespace `SaModel.Props.C06`): `acc_interp` / `fromSamples_interp` /
+`fromSamples_interpRow` (tracer ⇒ documented mapping), `C06_closure_build_partial` (trace ⇒ every `push` succeeds),
+`C06_closure_decode` (the arrays decode to the samples), `C06_closure_readback_partial`.  They supersede the former
+`C06_closure_partial` (the closure against an abstract builder interface). -/
 
 /-! ### finding #25: tuples of different arity -/
 
